@@ -383,8 +383,10 @@ func (r *result) explainEnd(f *facts, e *endpoint) *vf.Verdict {
 		// The period an endpoint applies is min(own, max(5 s, peer's)): wire/transport_parameters.go raises a remote
 		// max_idle_timeout below protocol.MinRemoteIdleTimeout (5 s) to 5 s - a documented constant of the
 		// implementation, tolerated here (RFC 9000 10.1 would give min(own, peer's) = neg).
-		period := time.Duration(c.effIdle(e.name)) * ms
-		if period != neg {
+		period := time.Duration(r.effMs(e.name)) * ms
+		if a := r.advIdle[p.name]; a.seen && (!a.present || a.ms == 0) {
+			r.u.Class("idle-own-period-alone(peer advertised none)")
+		} else if period != neg {
 			r.u.Class("idle-floor-5s-applied")
 		}
 		if v := r.idleBounds(f, e, T, e.connAt, period, false); v != nil {
@@ -439,6 +441,9 @@ func judge(r *result, u *vf.Unit) *vf.Verdict {
 	r.u = u
 	if r.harness != "" {
 		return r.bad("C17/harness/setup", "%s", r.harness)
+	}
+	if a := r.advIdle["c"]; c.ClientSpec != "" && a.seen && a.present && a.ms > 0 {
+		return r.bad("C17/harness/setup", "the spec-driven client was to advertise no max_idle_timeout, the wire shows %d ms", a.ms)
 	}
 	f := r.facts()
 	hs := c.Phase == "handshake"
